@@ -18,7 +18,7 @@ from ufl.algorithms import (
 )
 from ufl.algorithms.renumbering import renumber_indices
 from ufl.algorithms.signature import compute_form_signature
-from ufl.classes import Form, Integral
+from ufl.classes import Action, Adjoint, BaseForm, Cofunction, Form, FormSum, Integral, Matrix
 from ufl.core.expr import Expr
 from ufl.pullback import identity_pullback
 from ufl.sobolevspace import H1
@@ -107,13 +107,14 @@ def abs_self_cycles(o):
 
 
 def snapshot(o):
+    """Everything the property names, EXCEPT the freshly computed signature (computing it is itself an
+    operation of the library that must not change anything: see Pool.signatures)."""
     if isinstance(o, Expr) and cyclic(o):
         return {"type": type(o).__name__, "repr": "CYCLIC OPERAND GRAPH", "hash": None}
     if isinstance(o, Form) and any(cyclic(i.integrand()) for i in o.integrals()):
         return {"type": "Form", "repr": "CYCLIC OPERAND GRAPH", "hash": None}
     s = {"type": type(o).__name__, "repr": safe(lambda: repr(o)), "hash": safe(lambda: hash(o))}
     if isinstance(o, Form):
-        s["signature_fresh"] = safe(lambda: compute_form_signature(o, o._compute_renumbering()))
         s["arguments"] = safe(lambda: tuple(repr(a) for a in o.arguments()))
         s["coefficients"] = safe(lambda: tuple(repr(c) for c in o.coefficients()))
         s["constants"] = safe(lambda: tuple(repr(c) for c in o.constants()))
@@ -123,6 +124,13 @@ def snapshot(o):
             for i in o.integrals())
         s["cache"] = freeze(getattr(o, "_cache", {}))
         s["subdomain_data"] = safe(lambda: repr(o.subdomain_data()))
+    elif isinstance(o, BaseForm):
+        s["arguments"] = safe(lambda: tuple(repr(a) for a in o.arguments()))
+        s["coefficients"] = safe(lambda: tuple(repr(c) for c in o.coefficients()))
+        s["operands"] = safe(lambda: tuple(id(x) for x in o.ufl_operands))
+        if hasattr(o, "components"):
+            s["components"] = safe(lambda: tuple(id(x) for x in o.components()))
+            s["weights"] = safe(lambda: repr(list(o.weights())))
     elif isinstance(o, Expr):
         s["shape"] = safe(lambda: (o.ufl_shape, o.ufl_free_indices, o.ufl_index_dimensions))
         s["str"] = safe(lambda: str(o))
@@ -131,6 +139,10 @@ def snapshot(o):
     elif isinstance(o, dict):
         s["content"] = freeze(o)
     return s
+
+
+def fresh_signature(o):
+    return safe(lambda: compute_form_signature(o, o._compute_renumbering()))
 
 
 class Pool:
@@ -147,6 +159,7 @@ class Pool:
         self.user_dicts = []
         self.objs = []           # (name, object)
         self.snaps = []
+        self.sigs = []
         self.measures = []
         for _ in range(3):
             self.measures.append(self.measure())
@@ -156,6 +169,20 @@ class Pool:
             self.add(f"expr{k}", self.expr())
         self.add("abs_f", abs(self.f))
         self.add("conj_g", ufl.conj(self.g))
+        # structurally different expressions with naturally colliding hashes (see C13_harness): == has to walk them
+        import C13_harness as Hn
+        self.collisions = []
+        for k, (label, a, b) in enumerate(Hn.hash_collision_pairs(Hn.ExprGen(seed))[:: 3][:5]):
+            self.add(f"coll{k}a", a)
+            self.add(f"coll{k}b", b)
+            self.collisions.append((f"coll{k}a", a, f"coll{k}b", b))
+        # base forms: cofunctions, a matrix, genuine FormSums (Form + Cofunction / Form + Matrix)
+        self.cof = [Cofunction(self.V.dual()), Cofunction(self.V.dual())]
+        self.mat = Matrix(self.V, self.V)
+        lin, bil = self.f * self.v * dx(m), self.u * self.v * dx(m)
+        for nm, o in (("cof0", self.cof[0]), ("cof1", self.cof[1]), ("matrix", self.mat), ("lin", lin), ("bil", bil),
+                      ("formsum_lin", lin + self.cof[0]), ("formsum_bil", bil + self.mat)):
+            self.add(nm, o)
         for k, d in enumerate(self.user_dicts):
             self.add(f"userdict{k}", d)
         for k, ms in enumerate(self.measures):
@@ -164,6 +191,14 @@ class Pool:
     def add(self, name, o):
         self.objs.append((name, o))
         self.snaps.append(snapshot(o))
+        self.sigs.append(None)
+        if isinstance(o, Form) and self.snaps[-1]["repr"] != "CYCLIC OPERAND GRAPH":
+            self.sigs[-1] = fresh_signature(o)
+            ch = self.core_changes()
+            if ch:
+                raise InputChanged(f"compute_form_signature({name})", ch,
+                                   {n: sn["repr"][:600] for (n, _), sn in zip(self.objs, self.snaps)
+                                    if n in {c[0] for c in ch}})
 
     def metadata(self):
         r = self.rng
@@ -249,8 +284,7 @@ class Pool:
         c = [(n, o) for n, o in self.objs if pred(o)]
         return self.rng.choice(c) if c else (None, None)
 
-    def changed(self):
-        """[(name, key, before, after)] for every pooled object whose snapshot differs."""
+    def core_changes(self):
         out = []
         for (n, o), s in zip(self.objs, self.snaps):
             t = snapshot(o)
@@ -263,6 +297,23 @@ class Pool:
         # most specific evidence first (metadata / integrals before the long repr)
         out.sort(key=lambda c: (c[1] in ("repr", "str"), c[0]))
         return out
+
+    def changed(self):
+        """-> (changes, culprit): changes of any pooled object since it was pooled; culprit is None when the
+        last operation did it, or the name of the form whose fresh signature computation did it."""
+        ch = self.core_changes()
+        if ch:
+            return ch, None
+        for i, ((n, o), sg) in enumerate(zip(self.objs, self.sigs)):
+            if sg is None:
+                continue
+            t = fresh_signature(o)
+            ch = self.core_changes()
+            if ch:
+                return ch, n
+            if t != sg:
+                return [(n, "signature_fresh", str(sg)[:40], str(t)[:40])], None
+        return [], None
 
 
 def is_form(o):
@@ -352,6 +403,13 @@ def operations():
             raise InputChanged(f"weak-hash {n1} == {n2}", "repr of a compared copy changed")
         return f"weak-hash {n1} == {n2}", None
 
+    def op_eq_collision(pool, r):
+        na, a, nb, b = pool.rng.choice(pool.collisions)
+        if r.random() < 0.5:
+            na, a, nb, b = nb, b, na, a
+        bool(a == b)
+        return f"{na} == {nb}   (equal hashes, different structure)", None
+
     def op_signature(pool, r):
         n, a = pool.pick(is_form)
         a.signature()
@@ -416,6 +474,23 @@ def operations():
                lambda e: expand_indices(apply_algebra_lowering(e)), remove_complex_nodes]
         return f"{names[k]}({n})", fns[k](a)
 
+    def arity(o):
+        return len(o.arguments())
+
+    def op_baseform(pool, r):
+        """Base-form algebra: sums / differences / scalings of Forms, Cofunctions, Matrices, FormSums ..."""
+        n1, a = pool.pick(lambda o: isinstance(o, BaseForm))
+        n2, b = pool.pick(lambda o: isinstance(o, BaseForm) and arity(o) == arity(a))
+        n3, c = pool.pick(lambda o: isinstance(o, BaseForm) and arity(o) == arity(a))
+        k = r.randrange(9)
+        names = [f"{n1} + {n2}", f"{n1} - {n2}", f"-{n1}", f"3*{n1}", f"FormSum(({n1}, 2), ({n2}, -1))",
+                 f"FormSum(({n1}, 1), ({n2}, 1), ({n3}, 1))", f"({n1} + {n2}) + {n3}", f"action({n1}, g)",
+                 f"adjoint({n1})"]
+        fns = [lambda: a + b, lambda: a - b, lambda: -a, lambda: 3 * a, lambda: FormSum((a, 2), (b, -1)),
+               lambda: FormSum((a, 1), (b, 1), (c, 1)), lambda: (a + b) + c, lambda: action(a, pool.g),
+               lambda: adjoint(a)]
+        return names[k], fns[k]()
+
     def op_reapply(pool, r):
         """Apply the constructor of a pooled unary operator node to the node itself: Abs(Abs(x)), ..."""
         n, a = pool.pick(lambda o: is_expr(o) and not o._ufl_is_terminal_ and len(o.ufl_operands) == 1
@@ -424,6 +499,8 @@ def operations():
 
     ops = {
         "reapply_constructor": op_reapply,
+        "baseform_algebra": op_baseform,
+        "baseform_algebra2": op_baseform,
         "compute_form_data": cfd,
         "expand_derivatives": form_op(expand_derivatives, "expand_derivatives"),
         "apply_algebra_lowering": form_op(apply_algebra_lowering, "apply_algebra_lowering"),
@@ -440,7 +517,7 @@ def operations():
         "renumber_indices": form_op(renumber_indices, "renumber_indices"),
         "remove_complex_nodes": form_op(lambda a: remove_complex_nodes(apply_algebra_lowering(a)), "remove_complex_nodes.lowering"),
         "replace": op_replace, "derivative": op_derivative, "action": op_action, "adjoint": op_adjoint,
-        "lhs_rhs_system": op_lhs_rhs, "eq_hash": op_eq, "eq_weak_hash": op_eq_weak, "eq_rebuilt": op_eq_rebuilt, "signature": op_signature,
+        "lhs_rhs_system": op_lhs_rhs, "eq_hash": op_eq, "eq_weak_hash": op_eq_weak, "eq_hash_collision": op_eq_collision, "eq_rebuilt": op_eq_rebuilt, "signature": op_signature,
         "degree": op_degree, "form_arith": op_arith, "unary": op_unary, "binary": op_binary,
         "integrate": op_integrate, "measure": op_measure, "expr_algorithms": op_expr_alg,
     }
@@ -450,7 +527,11 @@ def operations():
 def run_history(seed, length, ops, only=None):
     """Run one seeded history; returns (log, failure or None).  `only`: indices of steps to execute
     (for shrinking; the random stream is consumed identically)."""
-    pool = Pool(seed)
+    try:
+        pool = Pool(seed)
+    except InputChanged as ex:
+        return [(-1, ex.args[0])], {"step": -1, "operation": ex.args[0], "changed": ex.args[1][:6], "seed": seed,
+                                    "abs_self_cycles": {}, "objects": ex.args[2] if len(ex.args) > 2 else {}}
     r = random.Random(seed * 1000003 + 17)
     names = sorted(ops)
     log = []
@@ -476,7 +557,10 @@ def run_history(seed, length, ops, only=None):
         log.append((step, desc))
         if res is not None and isinstance(res, Expr) and cyclic(res):
             res = None
-        ch = pool.changed()
+        ch, culprit = pool.changed()
+        if ch and culprit is not None:
+            desc = f"compute_form_signature({culprit})   [after: {desc}]"
+            log[-1] = (step, desc)
         if ch:
             names_changed = {c[0] for c in ch}
             footprint = {n: (len(abs_self_cycles(o)) if isinstance(o, Expr) else
@@ -487,7 +571,7 @@ def run_history(seed, length, ops, only=None):
                          "abs_self_cycles": footprint,
                          "objects": {n: pool.snaps[i]["repr"][:400] for i, (n, o) in enumerate(pool.objs)
                                      if n in {c[0] for c in ch}}}
-        if res is not None and isinstance(res, (Form, Expr, Measure)) and len(pool.objs) < 40:
+        if res is not None and isinstance(res, (BaseForm, Expr, Measure)) and len(pool.objs) < 48:
             pool.add(f"r{step}", res)
     return log, None
 
